@@ -55,7 +55,7 @@ func (s *stdSvc) gHop(rt *rapid.T, label string, proto string) (AURI, string) {
 	case "never-learned":
 		u.Host, u.Port = s.ip(25), rapid.SampledFrom([]int{5070, 5070, s.high}).Draw(rt, label+".hopport")
 	case "never-learned-alias":
-		u.Host, u.Port = "hop-c.test", 5070
+		u.Host, u.Port = rapid.SampledFrom([]string{"hop-c.test", "hop-c.test", "Hop-B.Corp.test"}).Draw(rt, label+".alias"), 5070
 	case "primed-L1":
 		u.Host, u.Port = s.ip(20), rapid.SampledFrom([]int{5070, 5070, s.high}).Draw(rt, label+".hopport")
 	case "primed-L2":
@@ -254,7 +254,7 @@ func (s *stdSvc) gRelayRequest(rt *rapid.T, o relayOpts) relayCase {
 	if rapid.IntRange(0, 4).Draw(rt, "totag") == 0 {
 		toTag = gTok(rt, "totagv")
 	}
-	toHostStatic := []string{"static-udp.test", "static-tcp.test", "static-noport.test", "x.wudp.test", "y.z.wtcp.test", "also-udp.test", "q.wmid.test", "r.wlast.test", "tail-lit.test", "k.wtcp2.test", "plain-w.test", "static-high.test"}
+	toHostStatic := []string{"static-udp.test", "static-tcp.test", "static-noport.test", "x.wudp.test", "y.z.wtcp.test", "also-udp.test", "q.wmid.test", "r.wlast.test", "tail-lit.test", "k.wtcp2.test", "plain-w.test", "static-high.test", "Static-Caps.Corp.test"}
 	switch rc.Path {
 	case "static":
 		p.To = gNameAddr(rt, "to", naOpts{allowBare: true, maxParams: 3, tag: &toTag, uri: uriOpts{hostFn: func(rt *rapid.T, l string) string { return rapid.SampledFrom(toHostStatic).Draw(rt, l) }}})
